@@ -22,6 +22,9 @@ package main
 //   nonempty            stack.elements[stack.tos]: a dominating IsEmpty() test
 //                       excludes the empty stack (tos == len(elements)-1 is
 //                       the who-writes invariant of C01-UFL)
+//   aftercall:F         the construct is reached only after a call of F in the
+//                       same function returned a nil error (F validates what
+//                       the construct relies on)
 //   rettype:F:T         the asserted value is result 0 of F, the assertion is
 //                       reached only when result 1 is true, and every return
 //                       of F with result 1 == true returns a T
@@ -96,6 +99,11 @@ func (c *Ctx) anchorHolds(row *TableRow, o *Ob, pos token.Pos) (bool, string) {
 				ok, why = anchorSortMethod(in)
 			case "nonempty":
 				ok, why = c.anchorNonEmpty(in)
+			case "aftercall":
+				if len(parts) != 2 {
+					return false, "malformed anchor " + a
+				}
+				ok, why = c.anchorAfterCall(in, parts[1])
 			case "peek":
 				ok, why = c.anchorPeek(in)
 			case "rettype":
@@ -701,4 +709,47 @@ func (c *Ctx) anchorNonEmpty(in ssa.Instruction) (bool, string) {
 		}
 	}
 	return false, "no dominating IsEmpty() test keeps the empty stack away from this access"
+}
+
+// ---- aftercall
+
+func (c *Ctx) anchorAfterCall(in ssa.Instruction, fname string) (bool, string) {
+	g := c.fn(fname)
+	if g == nil {
+		return false, fname + " not found"
+	}
+	ei := errResultIndex(g.Signature)
+	if ei < 0 {
+		return false, fname + " returns no error"
+	}
+	f := in.Parent()
+	for _, ci := range callsOf(f, g) {
+		call, ok := ci.(*ssa.Call)
+		if !ok || !dominatesInstr(call, in) {
+			continue
+		}
+		checked := guardedBy(in.Block(), func(cond ssa.Value) (bool, bool) {
+			bo, ok := cond.(*ssa.BinOp)
+			if !ok || (bo.Op != token.NEQ && bo.Op != token.EQL) || !isNilConst(bo.Y) {
+				return false, false
+			}
+			switch x := bo.X.(type) {
+			case *ssa.Extract:
+				if x.Tuple != ssa.Value(call) || x.Index != ei {
+					return false, false
+				}
+			case *ssa.Call:
+				if x != call {
+					return false, false
+				}
+			default:
+				return false, false
+			}
+			return true, bo.Op == token.EQL
+		})
+		if checked {
+			return true, ""
+		}
+	}
+	return false, "no call of " + fname + " with its error tested dominates the construct"
 }
